@@ -598,7 +598,7 @@ static void run_blk(std::string const& id, std::uint64_t seed)
     std::printf("IN BLK %s nw=%d el=%d st=%d seed=%llu w=%d K=%d kinds=%s caller=%c\n", id.c_str(), NW, int(EL), int(ST),
         (unsigned long long) seed, w, K, kinds.c_str(), caller);
     std::fflush(stdout);
-    // every call that does not return costs the 5 s bound: two such cases per run are evidence enough
+    // every call that does not return costs the 10 s bound: two such cases per run are evidence enough
     static int blk_not_returned = 0;
     if (blk_not_returned >= 2)
     {
@@ -649,7 +649,7 @@ static void run_blk(std::string const& id, std::uint64_t seed)
         ret_us = long(std::chrono::duration_cast<std::chrono::microseconds>(std::chrono::steady_clock::now() - t0).count());
         returned = true;
     });
-    bool const ret = wait_flag(returned, 5000);
+    bool const ret = wait_flag(returned, 10000);
     if (!ret) ++blk_not_returned;
     int const finished_at_return = sh->finished.load();
     std::string const st_ret = states_str();
@@ -663,7 +663,7 @@ static void run_blk(std::string const& id, std::uint64_t seed)
             if (v != w) { submit(v); ++others; }
         submit(-1); ++others;
     }
-    bool const others_done = wait_done(done0 + others, 5000);
+    bool const others_done = wait_done(done0 + others, 10000);
     // ---- release the blocked tasks (from a task of the default pool: every primitive is used from pika tasks only)
     tt::sync_wait(ex::schedule(ex::thread_pool_scheduler{DP}) | ex::then([sh] {
         sh->latch.count_down(1);
